@@ -67,7 +67,7 @@ def c13_casesv(lines):
         src, lvl, tm, msg, chain, attrs, nw = f[1:8]
         writes = f[8:]
         rec = "(mkRecord %s %s %s %s %s)" % (coq_bytes(tm), LEVELS[int(lvl)],
-                                             "None" if src == "~" else "(Some %s)" % coq_bytes(src),
+                                             "None" if src == "~" else "(Some (%s, %s))" % tuple(coq_bytes(x) for x in src.split(",")),
                                              coq_bytes(msg), _attrs(attrs, 0)[0])
         rows.append("verdict_ok (check_case o_space o_uprint o_sprint %s %s [%s])" % (
             _chain(chain), rec, "; ".join(coq_bytes(w) for w in writes)))
@@ -93,29 +93,42 @@ CFG = dict(
     ocaml="c13",
     drv_args=[TABLES],
     casesv=c13_casesv,
-    case_tags=("E",),
+    case_tags=("E",),   # "L" lines (long inputs) are judged by the driver but never sampled into cases.v
     rule=("the real TextHandler (colour off) behind logger.New: the empty string, every 1-byte string, hostile strings, all Unicode "
           "spaces, non-printing runes and invalid UTF-8 forms each as message / key / value / group name / group key / With attribute / "
-          "error, TextMarshaler, []byte, AnsiString, Stringer text; 2-byte strings (quick: stride 23, thorough: all 65,536) and Unicode "
-          "scalars (quick: all below U+3000 + plane edges + 3,000 sampled; thorough: all below U+30000 + 100,000 sampled) in all four "
-          "positions at once; seeded random attribute trees (depth <= 5, keyed / inline / empty groups, LogValuers, all value kinds), "
-          "With/WithGroup chains of length <= 5, five levels, source on/off, entry points Handler.Handle / Logger.LogAttrs / Logger.Log; "
-          "non-trivial = distinct case lines"),
+          "error, TextMarshaler, []byte, AnsiString, Stringer text and as the panic value of panicking MarshalText/Error methods (plus nil "
+          "pointer receivers); 2-byte strings (quick: stride 23, thorough: all 65,536) and Unicode scalars (quick: all below U+3000 + plane "
+          "edges + 3,000 sampled; thorough: all below U+30000 + 100,000 sampled) in all four positions at once; long inputs (64 B, 1 KiB, "
+          "2.1 KiB, 4 KiB, 17 KiB, 70 KiB) with hostile content at start / middle / end as message, key, value and group name; source on: "
+          "call sites under //line directives whose file names need quoting, PC = 0, and every Logger method (Debug..Panic, Log, LogAttrs and "
+          "the *f variants) called from its own wrapper so that the source item must be the caller's file:line; malformed argument lists "
+          "(!BADKEY) through Info/Warn/Log/With; seeded random attribute trees (depth <= 5, keyed / inline / empty groups, LogValuers, all "
+          "value kinds), With/WithGroup chains of length <= 5, five levels, entry points Handler.Handle / Logger.LogAttrs / Logger.Log; "
+          "non-trivial = distinct inputs"),
     trusted_base=[HARNESS_TB, EXTRACT_TB,
                   "Lib/TextTok.v + Lib/GoQuote.v (unquote) are my reading of 'space-separated key=value tokens, bare or Go-quoted'; the "
                   "unquoting is cross-checked against strconv.Unquote on every quoted item observed and on synthetic literals",
                   "oracles: unicode.IsSpace / unicode.IsPrint / strconv.IsPrint enter the theorems as universally quantified functions "
                   "(no hypothesis on them); the driver instantiates them with the tables dumped from the Go toolchain on every run",
+                  "the tokenizer's bare items deliberately accept DEL, C1 controls other than U+0085, non-printing runes and invalid UTF-8 "
+                  "bytes (the property only demands 'free of whitespace, = and double quote'): a change that stops quoting those is byte "
+                  "drift against the model, not a violation",
+                  "source: the harness passes the runtime's full f.File and line; the model transcribes appendTextSource's byte loop, the "
+                  "specification says 'last two path elements'; they agree on every path with >= 2 '/' (theorem C13_source_cut); the known "
+                  "oddity (a relative path with fewer than two '/' loses its first character, Example C13_source_oddity) is excluded by the "
+                  "checked hypothesis src_agrees",
                   "oracle texts: strconv ints/floats/bools, Duration.String(), RFC3339 times are taken from the stdlib by the harness; the "
                   "theorem's hypothesis on them (non-empty bare items) is checked on every observed case"],
     assumptions=["colour off; the five valid levels; WithGroup names non-empty (Logger.WithGroup ignores the empty name)",
-                 "an error / TextMarshaler / Stringer value is its resulting text (panicking methods are C01's business)"],
+                 "an error / TextMarshaler / Stringer value is its resulting text; for a method that panics the text is '<nil>' (nil pointer "
+                 "receiver) or '!PANIC: <panic value>' as logger/handler.go panicText defines it (exercised, expected text computed by the harness)"],
 )
 CFG["manifest"] = dict(
     text=("Proof: Coq theorem C13_text_line_faithful — for every oracle triple, every With/WithGroup chain and every record (arbitrary "
           "bytes in message, keys, group names, values; arbitrary attribute trees) the model's Handle output is one newline-terminated "
           "line whose body the key=value tokenizer reads back as exactly time, level, [source], msg and the (dotted path, value) pairs. "
-          "Tie: the real handler is run on exhaustive small string domains in every position and on random trees/chains; each written "
+          "Tie: the real handler is run on exhaustive small string domains in every position, long inputs, every Logger method with source "
+          "on, malformed argument lists and random trees/chains; each written "
           "line is tokenized by the extracted tokenizer and compared with the expected pairs, and byte-compared with the model."),
     note=("Trusted: Coq kernel; the tokenizer as the reading of the line format (unquote cross-checked against strconv.Unquote); "
           "extraction + OCaml glue (cross-checked by vm_compute sample); Go harness; Unicode tables as dumped from the toolchain."),
